@@ -179,6 +179,14 @@ add("C17", "exploration", "DESIGN.md §2 C17",
     "slots, template inclusion). Sampled; restricted to constructs with an unambiguous specification.",
     "the reference interpreter is written by the same reader of the specifications; html.parser tokenises both sides")
 
+add("C18", "exploration", "DESIGN.md §2 C18",
+    "Four Hypothesis-driven oracles on simpleTAL: metamorphic skeleton invariance (hostile vs inert context strings), "
+    "python: side-effect canary under allowPythonPath on/off, round-trip + idempotence of TAL-free documents from an "
+    "HTML grammar, and context-state restoration after expansion",
+    "6k (quick) / 150k (thorough) cases over the four modes; the python canary is shown to fire when python paths are "
+    "enabled, so an empty canary under the disabled setting is meaningful. Sampled.",
+    "html.parser is the trusted tokenizer on both sides of the round-trip; document grammar limited to what it treats as markup")
+
 NOT_APPLICABLE = []
 
 
